@@ -406,6 +406,8 @@ impl ShellSim {
         self.steps_total = cfg.get("steps").and_then(Value::as_u64).unwrap_or(4000);
         let _ = self.drain_receiver();
         let _ = self.drain_client();
+        // a run that ended on a burst leaves datagrams in the uplink channel: they belong to no run
+        while self.packet_rx.try_recv().is_ok() {}
     }
 
     /// after an arm call: capture both sides, feed the fake receiver, build the trace line
